@@ -60,8 +60,11 @@ META = {
                  '(new instance) or refresh (held instance); proved separately under C04',
                  'event listeners, joins, foreign keys, column kinds other than IntCol, per-connection instances, threads',
                  'lazyUpdate together with cacheValues=False shows the stored value, not the pending one (noted, excluded from the read theorem by hypothesis)'],
-    'assumptions': ['translated-method theorems: the object has _SO_val_ attributes only for its columns, pending keys are '
-                    'columns, the class has at least one column (two for _SO_getValue); no signal listener is connected; '
+    'assumptions': ['translated-method theorems: the class has at least one column (two for _SO_getValue); no signal listener is '
+                    'connected; set(**kw) with a keyword that is not a column: proved (TypeError, nothing changed) when the '
+                    'column keywords are valid (the hand model reports the unknown name before it validates, the code after); '
+                    '"the object has _SO_val_ attributes only for its columns" and "pending keys are columns" are '
+                    'proved for every reachable state (C05_translated_rep_reachable, *_reachable theorems); '
                     'get(), _init, destroySelf, expireAll and the create path are still hand-modelled + correspondence',
                     'at most one live held instance per (class, id) (C04 identity map); when the real code hands out a second one '
                     '(open C04 finding: expire() evicts the instance) the harness drops the older handle',
